@@ -78,8 +78,9 @@ def rectCells (q : Rect) : List Cell :=
   (List.range (q.2.2.1 - q.1 + 1).toNat).flatMap fun (i : Nat) =>
     (List.range (q.2.2.2 - q.2.1 + 1).toNat).map fun (j : Nat) => (q.1 + (i : Int), q.2.1 + (j : Int))
 
-/-- one reference of a sequence: `none` = the reference is silently skipped (three
-or more parts: the `switch len(rng)` of `flatSqref` has no default case) -/
+/-- one reference of a sequence: a cell, a range, anything else (three or more
+parts) is `ErrParameterInvalid` (the `default` case, since the repair of
+`sqref:accept-non-ref:skipped-multi-colon`; the `Option` is kept for the callers). -/
 def flatRef (ref : List Char) : Except Err (Option (List Cell)) :=
   match splitColon ref with
   | [a] =>
@@ -90,7 +91,7 @@ def flatRef (ref : List Char) : Except Err (Option (List Cell)) :=
     match rangeRefToCoordinates ref with
     | .error e => .error e
     | .ok q => .ok (some (rectCells (sortCoordinates q)))
-  | _ => .ok none
+  | _ => .error .param
 
 def flatRefs : List (List Char) → Except Err (List Cell)
   | [] => .ok []
@@ -171,6 +172,67 @@ def mergeParseWith (merges : List (List Char)) (s : List Char) : Except Err (Lis
     match coordinatesToCellName c r false with
     | .error e => .error e
     | .ok canon => redirectScan (c, r) canon merges
+
+/-! ### column ranges (`parseColRange`, col.go) -/
+
+/-- `parseColRange` (SetColVisible, SetColStyle; SetColWidth passes
+`startCol + ":" + endCol`): one column name or two of them separated by `:`, the
+result sorted. More than two parts is an invalid column name (since the repair of
+`colrange:accept-extra-part`). -/
+def parseColRange (columns : List Char) : Except Err (Int × Int) :=
+  match splitColon columns with
+  | [a] =>
+    match columnNameToNumber a with
+    | .error e => .error e
+    | .ok v => .ok (v, v)
+  | [a, b] =>
+    match columnNameToNumber a with
+    | .error e => .error e
+    | .ok x =>
+      match columnNameToNumber b with
+      | .error e => .error e
+      | .ok y => .ok (if y < x then (y, x) else (x, y))
+  | _ => .error .colName
+
+/-- `SetColWidth(sheet, startCol, endCol, w)` -/
+def colWidthRange (a b : List Char) : Except Err (Int × Int) := parseColRange (a ++ [':'] ++ b)
+
+/-! ### lookup paths on a sheet WITH merged cells
+
+The same paths as in `RefApi`, with `mergeCellsParser` running over the worksheet's
+merged-cell list `ms` (`mergeParseWith`). A path returns the key it touches, or an
+error (a malformed merged-cell reference makes every path through
+`mergeCellsParser` fail). -/
+
+def pathPrepareM (ms : List (List Char)) (s : List Char) : Except Err Key :=
+  match mergeParseWith ms s with
+  | .error e => .error e
+  | .ok anchor =>
+    match cellNameToCoordinates anchor with
+    | .ok (c, r) => .ok (.xy c r)
+    | .error e => .error e
+
+def pathGetStringM (ms : List (List Char)) (s : List Char) : Except Err Key :=
+  match mergeParseWith ms s with
+  | .error e => .error e
+  | .ok anchor =>
+    match cellNameToCoordinates anchor with
+    | .ok (c, r) =>
+      match coordinatesToCellName c r false with
+      | .ok again => .ok (.ref again)
+      | .error e => .error e
+    | .error e => .error e
+
+def pathRichGetM (ms : List (List Char)) (s : List Char) : Except Err Key := pathPrepareM ms s
+
+/-- hyperlinks: `SplitCellName` gate, then the anchor string itself is the key -/
+def pathLinkM (ms : List (List Char)) (s : List Char) : Except Err Key :=
+  match splitCellName s with
+  | .error e => .error e
+  | .ok _ =>
+    match mergeParseWith ms s with
+    | .error e => .error e
+    | .ok anchor => .ok (.ref anchor)
 
 /-! ### Spec: what a reference sequence denotes -/
 
